@@ -264,6 +264,7 @@ fn enumerate_c02(cli: &Cli, r: &Report) {
             }
         }
     }
+    quiet_first_rounds(cli, r, "C02", &mut index);
     // Samples whose timed section only resizes or only frees (no `alloc` in it at all).
     for (entry, ishape, oshape) in shapes() {
         for script in [3usize, 6] {
@@ -325,10 +326,45 @@ fn enumerate_c02(cli: &Cli, r: &Report) {
     r.set_bounds(json!({
         "budget_during_tuning": "every shape x max_time in {1,20,60} ns x T in {1,2}, automatic sample size, allocation scripts at every site",
         "silent_threads": "4 entry/shape classes x T in {2,3} x every proper non-empty subset of allocating threads x 1 or 2 rounds (real threads)",
+        "quiet_first_rounds": "every shape x allocation only from round 1/2/3 on x T in {1,2,3} x site in {call, generator, output drop} x {explicit, automatic} sample size",
         "lazy_allocation": "every shape x allocation only before round 1/2/4 x T in {1,2} x site in {call, generator, output drop}, automatic sample size",
         "alloc_scripts_per_site": nscripts, "sites": SITE_NAMES, "path_classes": path_classes().len(),
         "sample_sizes": [1,2], "plus": "all 72 (entry,shape) combinations with one fixed script vector, explicit and tuned size"
     }));
+}
+
+/// Allocation that only starts after one, two or three quiet rounds (a cache filled late, a buffer that grows
+/// once the input gets large): every later sample must still start from a cleared tally and carry exactly its
+/// own thread's operations. Explicit and automatic sample size, T in {1, 2, 3}, at the call, in the generator
+/// and in the output destructor.
+fn quiet_first_rounds(cli: &Cli, r: &Report, prop: &str, index: &mut u64) {
+    for (entry, ishape, oshape) in shapes() {
+        for from in [1u64, 2, 3] {
+            for threads in [1usize, 2, 3] {
+                for site in [SITE_CALL, SITE_GEN, SITE_DROP_OUT] {
+                    for tuned in [false, true] {
+                        let mut base = LoopCase::basic(entry, ishape, oshape);
+                        if site == SITE_GEN && entry < 2 || site == SITE_DROP_OUT && !base.output_drops() {
+                            continue;
+                        }
+                        if threads == 3 && (tuned || site != SITE_CALL) {
+                            continue;
+                        }
+                        base.alloc[site] = 2;
+                        base.alloc_from_round = Some(from);
+                        base.threads = threads;
+                        base.sample_count = Some(5 * threads as u32);
+                        base.sample_size = if tuned { None } else { Some(1) };
+                        base.cost[SITE_CALL] = vec![if tuned { 30_000 } else { 1000 }];
+                        *index += 1;
+                        if cli.mine(*index) {
+                            check(r, prop, &base, *index);
+                        }
+                    }
+                }
+            }
+        }
+    }
 }
 
 /// C08 on real threads (one schedule per case; the loom exploration decides the ordering clauses): what
@@ -336,6 +372,7 @@ fn enumerate_c02(cli: &Cli, r: &Report) {
 /// next to threads that perform no allocator operation - for T in {2, 3}, one and two rounds.
 fn enumerate_c08_threads(cli: &Cli, r: &Report) {
     let mut index = 1_000_000u64;
+    quiet_first_rounds(cli, r, "C08", &mut index);
     for (entry, ishape, oshape) in [(0usize, 0usize, 0usize), (2, 2, 0), (2, 3, 3), (4, 2, 3), (4, 3, 1)] {
         for threads in [2usize, 3] {
             for mask in 1u32..(1 << threads) {
